@@ -91,6 +91,11 @@ Rematch == /\ ~matching /\ matching' = TRUE
            /\ IF CanRespawn THEN Respawn /\ UNCHANGED changes
               ELSE lastReset' = now /\ UNCHANGED <<now, pc, wake, started, out, retry, pStart, pEnd, pOut, pDelay, runs, rs, changes, fails, conf, stopped, respawned, forever>>
 
+\* what the code does (F17, a known finding of C12): the PATCH of the run's result is refused by the API for good (an error that is not
+\* retried, or retries exhausted): the exception ends the timer task, and nothing starts it again in this operator's life
+Dies == /\ pc \in {"sleep", "errsleep", "idle", "poll", "done"} /\ pc' = "done" /\ wake' = now /\ forever' = TRUE
+        /\ UNCHANGED <<now, started, lastReset, out, retry, pStart, pEnd, pOut, pDelay, runs, rs, stopped, changes, fails, conf, respawned, matching>>
+
 Urgent == (pc = "run" /\ now >= wake) \/ (pc \in {"init", "idle", "errsleep", "sleep", "poll"} /\ now >= wake)
 Tick == /\ now < Horizon /\ ~Urgent /\ now' = now + 1
         /\ UNCHANGED <<pc, wake, started, lastReset, out, retry, pStart, pEnd, pOut, pDelay, runs, rs, changes, fails, conf, stopped, respawned, matching, forever>>
